@@ -20,4 +20,5 @@ def run(chk, tier):
         chk.case(("beltraw", hx(k), hx(b)))
     chk.run_family(["default", "kuzsoft", "kuzcompact"], ops, cross=True)
     conf.require_models(chk, NAMES)
+    conf.kuz_backend_corr(chk, 40 if quick else 1500)
 
